@@ -478,10 +478,18 @@ def gen_forbidden(rng, run):
     lst.append(e)
     if rng.chance(0.3):
         lst.append(('file', 'after', None))
-    for _ in range(rng.weighted([(0, 4), (1, 4), (2, 2)])):
-        lst = [('dirlist', rng.choice(['inner', 'sub', 'w/v']), '=', lst)]
+    for _ in range(rng.weighted([(0, 3), (1, 4), (2, 3)])):
+        w = rng.choice(['inner', 'sub', 'w/v', 's'])
+        lst = [('dirlist', w, '=', lst)]
         if rng.chance(0.3):
             lst.insert(0, ('file', 'sibling', None))
+        if rng.chance(0.5):
+            # the SAME name again at this level, after the entry that holds the forbidden name:
+            # create + append, create + clash, several appends
+            for _k in range(rng.weighted([(1, 3), (2, 1)])):
+                lst.append(rng.choice([('dirlist', w, '+=', [('file', 'b', None)]), ('dirlist', w, '+=', []), ('dir', w),
+                                       ('dircopy', w, '+=', 1), ('dirlist', w, '=', []), ('file', w, None),
+                                       ('dirlist', w, '+=', [('dirlist', 'q', '=', [('file', 'r', ('=', 'x'))])])]))
     top = rng.choice([['d'], ['d'], ['top', 'inner'], ['g', 'h', 'i']])
     if rng.chance(0.25):
         instrs = [('make', ('dir', '/'.join(top))), ('make', ('dirlist', '/'.join(top), '+=', lst))]
@@ -623,6 +631,13 @@ CORPUS_FORBIDDEN = [
     ([('make', ('dirlist', 'top/inner', '=', [('dir', 'a'), ('dirlist', 'a/../..', '+=', _ML)]))], ['top', 'inner'], 'dotdot'),
     ([('make', ('dirlist', 'top/inner', '=', [('file', '../' + MARKER, None)]))], ['top', 'inner'], 'dotdot'),
     ([('make', ('dirlist', 'd', '=', [('dirlist', '.', '+=', [('dirlist', '..', '+=', _ML)])]))], ['d'], 'dotdot'),
+    # a repeated name at one level; the EARLIER entry holds the forbidden name (depth 1 and 2)
+    ([('make', ('dirlist', 'd', '=', [('dirlist', 's', '=', [('file', '../../' + MARKER, ('=', 'x'))]),
+                                      ('dirlist', 's', '+=', [('file', 'b', None)])]))], ['d'], 'dotdot'),
+    ([('make', ('dirlist', 'd', '=', [('dirlist', 's', '=', [('dirlist', 't', '=', [('file', '../../../' + MARKER, None)])]),
+                                      ('dir', 's')]))], ['d'], 'dotdot'),
+    ([('make', ('dirlist', 'top/inner', '=', [('dirlist', 's', '=', [('dirlist', '..', '+=', [('dirlist', '..', '+=', _ML)])]),
+                                              ('dirlist', 's', '+=', []), ('dirlist', 's', '+=', [])]))], ['top', 'inner'], 'dotdot'),
 ]
 
 
@@ -1194,7 +1209,7 @@ STATUS = {'PASS': 'SPass', 'HARD_ERROR': 'SHardError', 'VALIDATION_ERROR': 'SVal
 # =================================================================================================
 # the check
 # =================================================================================================
-def collect(ctx, res, rng, n_p, n_trees, per_tree, scratch_name='c15-run'):
+def collect(ctx, res, rng, n_p, n_trees, per_tree, scratch_name='c15-run', p_forbidden=0.14):
     """run the implementation; returns (terms, descriptions)"""
     run = Runner(os.path.join(ctx.work, scratch_name))
     terms, descs = [], []
@@ -1205,7 +1220,7 @@ def collect(ctx, res, rng, n_p, n_trees, per_tree, scratch_name='c15-run'):
             instrs = CORPUS_P[j]
         elif j < len(CORPUS_P) + len(CORPUS_FORBIDDEN):
             instrs, populated, fkind = CORPUS_FORBIDDEN[j - len(CORPUS_P)]
-        elif rng.chance(0.14):
+        elif rng.chance(p_forbidden):
             instrs, populated, fkind = gen_forbidden(rng, run)
         else:
             instrs = gen_instrs(rng, run)
@@ -1351,7 +1366,8 @@ def run(ctx, res):
                 'multi-component, ./, //, trailing / and "." forms, 4 % forbidden names (.., absolute, separators, empty); 14 % of the '
                 'populate cases come from the forbidden-name stream: ONE forbidden FILE-NAME (.. first / last / in the middle / alone, '
                 'absolute into a watched directory, empty, with : or ;) as file / dir, without contents / = / += (list or copy), at the '
-                'top of the list or nested 1-2 levels, instruction path of 1-3 components, with an entry called MARKER-c15 that is '
+                'top of the list or nested 1-2 levels (half of the enclosing entries followed at the same level by entries with the SAME '
+                'name: create + append, create + clash, several appends), instruction path of 1-3 components, with an entry called MARKER-c15 that is '
                 'searched for in the whole sandbox root and the watched directory; '
                 'matcher cases: trees of <= 9 nodes + <= 3 symbolic links (to file, to directory, dangling; no cycles), depth <= 3, '
                 'random creation order; expressions of depth <= 3 over every files-matcher and file-matcher of the model (glob and regex '
@@ -1384,10 +1400,11 @@ def run(ctx, res):
 
 
 def search(ctx, res):
-    """failing-input search: a larger run from a derived seed"""
+    """failing-input search (cheap): a second run from a derived seed, half of the populate cases from the forbidden-name
+    stream (the inputs of the rejection / confinement clause), fewer trees"""
     rng = common.Rng(ctx.seed * 7919 + 13)
     r2 = common.Result()
-    terms, descs = collect(ctx, r2, rng, 3000, 500, 8, scratch_name='c15-search')
+    terms, descs = collect(ctx, r2, rng, 900, 110, 8, scratch_name='c15-search', p_forbidden=0.5)
     evaluate(ctx, r2, terms, descs, tag='search')
     return r2.prop_failures
 
